@@ -402,10 +402,8 @@ def run(tier: str, seed: int):
                 col.tick()
                 nm += 1
                 col.nontrivial(('bad', name, bad_src(t), nil, bool(pred)))
-                # stable prefix for the cases that need two simultaneous faults in one node and its child
-                prefix = 'doubly malformed custom node:' if '>' in name else 'malformed custom node'
                 for key, msg in chk_parity(t, o):
-                    col.finding(key, f'{prefix} {name}: tree {t!r} [{U.opt_repr(o)}]: {msg}',
+                    col.finding(key, f'malformed custom node {name}: tree {t!r} [{U.opt_repr(o)}]: {msg}',
                                 U.make_script(bad_src(t), o, src, 'chk_parity(tree, o)', key, pre=BAD_SRC + '\n'))
     col.sample(f"malformed: {BAD['entries_short'](S.L(0), S.L(1))!r} -> "
                f"{chk_parity(BAD['entries_short'](S.L(0), S.L(1)), {'none_is_leaf': False, 'namespace': BAD_NS, 'is_leaf': None}) or 'all RuntimeError'}")
